@@ -150,6 +150,16 @@ type streamEnd struct {
 	rerr    error
 	done    chan struct{}
 	wt      tubes.Tube // the writing end
+	rt      tubes.Tube // the reading end
+}
+
+// gaveUp: the listed finding D19 — the sender of one end of the tube counted more than 100 duplicate
+// acknowledgements in a row and tore the tube down.
+func (e *streamEnd) gaveUp() string {
+	if (e.wt != nil && tubes.VerifDupAckLimitHit(e.wt)) || (e.rt != nil && tubes.VerifDupAckLimitHit(e.rt)) {
+		return "/sender-gave-up-after-100-duplicate-acks"
+	}
+	return ""
 }
 
 func scTubeStream(r *Run) {
@@ -181,12 +191,14 @@ func scTubeStream(r *Run) {
 		r.ArmYields([]string{fns[r.Intn("sched", len(fns))]}, 1+r.Intn("sched", 6), 1+r.Intn("sched", 60), []float64{0.02, 0.1, 0.5}[r.Intn("sched", 3)])
 		r.YieldsOn(true)
 	}
+	stallUntil := time.Duration(0) // socket stalls are faults like the others: they stop, and the liveness bound starts then
 	if r.Intn("sched", 4) == 0 {
 		pStall := 0.02 + 0.2*r.Float("sched")
+		stallUntil = time.Duration(5+r.Intn("sched", 40)) * time.Second
 		for _, ep := range []*Endpoint{mp.EA, mp.EB} {
 			ep := ep
 			ep.WriteStall = func() time.Duration {
-				if !r.Fault("socket-write-stall", ep.Name, pStall) {
+				if r.Now() >= stallUntil || !r.Fault("socket-write-stall", ep.Name, pStall) {
 					return 0
 				}
 				return time.Duration(1+r.Intn("stall:"+ep.Name, 100)) * time.Millisecond
@@ -343,6 +355,7 @@ func scTubeStream(r *Run) {
 			}
 			e := &streamEnd{name: fmt.Sprintf("tube%d.dir%d", i, dir), salt: r.U64("salt"), done: make(chan struct{})}
 			e.wt, _ = w.(tubes.Tube)
+			e.rt, _ = rd.(tubes.Tube)
 			switch r.Intn("cfg", 8) {
 			case 0:
 				e.total = 0
@@ -442,7 +455,7 @@ func scTubeStream(r *Run) {
 							e.eof = true
 							r.Obligation(1)
 							if !e.closes || e.read != e.total {
-								r.Violate("C08/early-eof", "%s: end-of-stream reported at offset %d; the peer wrote %d of %d bytes and closes=%v closed=%v", e.name, e.read, e.written, e.total, e.closes, e.closed)
+								r.Violate("C08/early-eof"+e.gaveUp(), "%s: end-of-stream reported at offset %d; the peer wrote %d of %d bytes and closes=%v closed=%v", e.name, e.read, e.written, e.total, e.closes, e.closed)
 							}
 						} else {
 							e.rerr = err
@@ -479,6 +492,9 @@ func scTubeStream(r *Run) {
 	case <-time.After(2 * time.Hour):
 		r.Violate("C08/write-blocked", "a Write call did not return within 2 simulated hours; goroutines:\n  %s", BlockedSummary())
 	}
+	if stallUntil > faultsFor {
+		faultsFor = stallUntil
+	}
 	if rem := faultsFor - r.Now(); rem > 0 {
 		time.Sleep(rem)
 	}
@@ -500,19 +516,14 @@ func scTubeStream(r *Run) {
 		case <-e.done:
 			r.Obligation(1)
 			if e.rerr != nil && !r.Failed() {
-				r.Violate("C08/io-error", "%s: tube I/O failed although the muxers were never stopped: %v (read %d, written %d of %d)", e.name, e.rerr, e.read, e.written, e.total)
+				r.Violate("C08/io-error"+e.gaveUp(), "%s: tube I/O failed although the muxers were never stopped: %v (read %d, written %d of %d)", e.name, e.rerr, e.read, e.written, e.total)
 			}
 		default:
 			r.Obligation(1)
 			if stacks == "" {
 				stacks = BlockedSummary()
 			}
-			class := "C08/incomplete-after-recovery"
-			if e.wt != nil && tubes.VerifDupAckLimitHit(e.wt) {
-				// (the listed finding D19: the sender gives the tube up after more than 100 duplicate
-				// acknowledgements in a row)
-				class += "/sender-gave-up-after-100-duplicate-acks"
-			}
+			class := "C08/incomplete-after-recovery" + e.gaveUp()
 			r.Violate(class, "%s: %d of %d bytes readable (writer wrote %d, closed=%v) %v after the last fault; faults lasted %v; goroutines:\n  %s", e.name, e.read, e.total, e.written, e.closed, bound, faultsFor, stacks)
 		}
 	}
